@@ -436,6 +436,9 @@ class BuiltinMixin:
         c = v.cls
         if c is not None and c.qualname == 'dict':
             return self.ok(st, v)
+        if c is not None and c.external and c.qualname in ('collections.abc.Mapping', 'collections.abc.MutableMapping', 'typing.Mapping'):
+            # narrowed by isinstance(x, Mapping) only: decide the concrete class from the path condition
+            c = None
         if c is not None and not c.external:
             deleg = self.mapping_delegate(c)
             if deleg is not None:
